@@ -37,9 +37,13 @@ pub mod c11;
 pub mod c12;
 #[cfg(feature = "c13")]
 pub mod c13;
+#[cfg(feature = "c15")]
+pub mod c15;
 #[cfg(feature = "c16")]
 pub mod c16;
 #[cfg(feature = "c17")]
 pub mod c17;
 #[cfg(feature = "c18")]
 pub mod c18;
+#[cfg(feature = "c20")]
+pub mod c20;
